@@ -564,6 +564,22 @@ pub fn run_c05(a: &Args, shared: &SharedReport) {
     }
     harness_b(a, shared, th);
     harness_a(a, shared, th, "C05");
+    // on-demand with several workers and several control requests before the run to completion (free-running; the
+    // verdict here is termination: join must return, and with everything the single-threaded check evaluates)
+    if a.shard == 0 {
+        let run = crate::engines::e1::Runner { shared, checks: vec!["c01", "c03"] };
+        for (_name, m) in zoo_models() {
+            if m.panic_on.is_some() || m.panic_thread.is_some() {
+                continue;
+            }
+            let orc = Oracle::new(&m);
+            for t in [2usize, 3, 4] {
+                for k in 0..m.inits.len().max(1) {
+                    run.case(&m, &orc, &Config { threads: t, block: Some(1), ..Config::plain(Strategy::OnDemandProbe(k)) }, None);
+                }
+            }
+        }
+    }
 }
 
 // ---- C12 (vi): timeouts ----------------------------------------------------------------------------
